@@ -246,6 +246,228 @@ def gen_case(rng):
     return case
 
 
+# ------------------------------------------------------------------ structured families (in every run)
+# The random forests above rarely prune two nodes that end up in the same adjacency row.  These families do it
+# systematically: complete binary / ternary trees, stars and caterpillars, numbered breadth-first, depth-first (pre- and
+# post-order) or in reverse, with labels arranged so that whole levels, all children of some parents (sibling groups),
+# alternating nodes, first / last children or all inner nodes are pruned -- by ignored_tokens, min_occurrences,
+# max_occurrences, min_tree_occurrences, a given dictionary, or labels unknown at transform time; with and without mask.
+SHAPES = ["bin2", "bin3", "tern2", "star", "caterpillar"]
+NUMBERINGS = ["bfs", "dfs", "post", "rbfs"]
+PATTERNS = ["level", "siblings", "alternate", "inner", "first-child", "last-child", "two-levels"]
+MECHANISMS = ["ignored", "min_occ", "max_occ", "min_tree_occ", "dict", "unseen"]
+
+
+def shape_parents(rng, shape):
+    """parent pointers in breadth-first order (node 0 is the root; children of a node are consecutive)"""
+    if shape in ("bin2", "bin3", "tern2"):
+        k, depth = (2, 2) if shape == "bin2" else ((2, 3) if shape == "bin3" else (3, 2))
+        n = sum(k ** i for i in range(depth + 1))
+        return [None] + [(v - 1) // k for v in range(1, n)]
+    if shape == "star":
+        return [None] + [0] * rng.choice([3, 4, 6])
+    # caterpillar: a spine, every spine node with 1-2 legs (listed in breadth-first order)
+    spine = rng.choice([3, 4, 5])
+    legs = [rng.choice([1, 2]) for _ in range(spine)]
+    par, ids, nxt = [None], [0], 1          # ids[i] = node of spine position i
+    for i in range(spine):
+        kids = legs[i] + (1 if i + 1 < spine else 0)
+        for j in range(kids):
+            par.append(ids[i])
+            if j == 0 and i + 1 < spine:
+                ids.append(nxt)
+            nxt += 1
+    # the list above is not breadth-first when legs precede deeper spine nodes; renumber breadth-first
+    return bfs_renumber(par)
+
+
+def bfs_renumber(par):
+    n = len(par)
+    kids = [[] for _ in range(n)]
+    for v in range(1, n):
+        kids[par[v]].append(v)
+    order, q = [], [0]
+    while q:
+        u = q.pop(0)
+        order.append(u)
+        q += kids[u]
+    pos = {u: i for i, u in enumerate(order)}
+    out = [None] * n
+    for v in range(1, n):
+        out[pos[v]] = pos[par[v]]
+    return out
+
+
+def numbering(par, how):
+    n = len(par)
+    kids = [[] for _ in range(n)]
+    for v in range(1, n):
+        kids[par[v]].append(v)
+    if how == "bfs":
+        return list(range(n))
+    if how == "rbfs":
+        return [n - 1 - v for v in range(n)]
+    pre, post = [], []
+
+    def go(u):
+        pre.append(u)
+        for c in kids[u]:
+            go(c)
+        post.append(u)
+    go(0)
+    order = pre if how == "dfs" else post
+    perm = [0] * n
+    for i, u in enumerate(order):
+        perm[u] = i
+    return perm
+
+
+def pruned_set(rng, par, pattern):
+    n = len(par)
+    depth = [0] * n
+    kids = [[] for _ in range(n)]
+    for v in range(1, n):
+        depth[v] = depth[par[v]] + 1
+        kids[par[v]].append(v)
+    D = max(depth)
+    inner = [v for v in range(1, n) if kids[v]]
+    if pattern == "level":
+        d = rng.choice([1] * 3 + list(range(1, D + 1)) + [0])
+        P = [v for v in range(n) if depth[v] == d]
+    elif pattern == "two-levels":
+        d = rng.choice(list(range(0, D)))
+        P = [v for v in range(n) if depth[v] in (d, d + 1)]
+    elif pattern == "siblings":
+        parents = [v for v in range(n) if len(kids[v]) >= 2]
+        chosen = rng.sample(parents, rng.randint(1, min(2, len(parents))))
+        P = [c for u in chosen for c in kids[u]]
+    elif pattern == "alternate":
+        r = rng.choice([0, 1])
+        P = [v for v in range(n) if v % 2 == r]
+    elif pattern == "inner":
+        P = inner or [1]
+    elif pattern == "first-child":
+        P = [kids[v][0] for v in range(n) if kids[v]]
+    else:
+        P = [kids[v][-1] for v in range(n) if kids[v]]
+    P = sorted(set(P))
+    if len(P) >= n:
+        P = P[1:]
+    return P, depth
+
+
+def structured_tree(rng, shape, how, pattern, K, pruned_labels, distinct, inward):
+    """one tree of the family; kept nodes get labels 0..K-1, pruned nodes the labels of `pruned_labels` (one distinct
+    label per pruned node when `distinct`)"""
+    par = shape_parents(rng, shape)
+    n = len(par)
+    perm = numbering(par, how)
+    P, depth = pruned_set(rng, par, pattern)
+    style = rng.choice(["depth", "index", "random", "same"])
+    lab_c = []
+    k = 0
+    for v in range(n):
+        if v in P:
+            lab_c.append(pruned_labels[k % len(pruned_labels)] if distinct else rng.choice(pruned_labels[:2]))
+            k += 1
+        else:
+            lab_c.append({"depth": depth[v] % K, "index": v % K, "random": rng.randrange(K), "same": 0}[style])
+    succ = [[] for _ in range(n)]
+    labels = [0] * n
+    for v in range(n):
+        labels[perm[v]] = lab_c[v]
+        if par[v] is not None:
+            a, b = perm[par[v]], perm[v]
+            if inward:
+                a, b = b, a
+            succ[a].append(b)
+    return {"succ": [sorted(r) for r in succ], "labels": labels}, len(P)
+
+
+def gen_structured(rng, shape, how, pattern, mech=None, mask=None):
+    mech = mech or rng.choice(MECHANISMS)
+    K = rng.choice([1, 2, 2, 3])
+    inward = rng.random() < 0.15
+    npl = 16 if mech == "min_occ" else rng.choice([1, 1, 2])
+    pruned_labels = list(range(K, K + npl))
+    t, _ = structured_tree(rng, shape, how, pattern, K, pruned_labels, mech == "min_occ", inward)
+    trees = [t]
+    if rng.random() < 0.3 and mech != "min_occ":
+        s2, h2 = rng.choice(SHAPES), rng.choice(NUMBERINGS)
+        trees.append(structured_tree(rng, s2, h2, rng.choice(PATTERNS), K, pruned_labels, False, inward)[0])
+    case = {"kind": "forest", "family": "%s/%s/%s/%s" % (shape, how, pattern, mech), "inward": inward,
+            "R": rng.choice([1, 2, 2, 3, 4]), "kernel": rng.choice(["flat", "flat", "harmonic", "geometric"]),
+            "orient": rng.choice(["before", "after", "after", "symmetric", "directional"]),
+            "fmt": rng.choice(["csr", "csr", "csc", "coo", "lil", "lil"]), "trees2": None, "prehistory": rng.random() < 0.3}
+    kargs = {"offset": rng.choice([0, 0, 0, 1])}
+    if case["kernel"] == "geometric":
+        kargs["power"] = rng.choice([None, [1, 2], [3, 4]])
+    case["kargs"] = kargs
+    kept_labels = list(range(K))
+    pad = {"succ": [[] for _ in range(2 * K)], "labels": kept_labels * 2}       # isolated nodes: every kept label twice
+    prune = {}
+    if mech == "ignored":
+        prune["ignored"] = sorted({l for t_ in trees for l in t_["labels"] if l >= K})
+    elif mech == "min_occ":
+        trees.append(pad)
+        prune["min_occ"] = 2
+    elif mech == "min_tree_occ":
+        trees.append(pad)
+        prune["min_tree_occ"] = len(trees)
+    elif mech == "dict":
+        idx = list(range(K))
+        rng.shuffle(idx)
+        prune["dict"] = [[l, i] for l, i in zip(kept_labels, idx)]
+    elif mech == "unseen":
+        # fitted on trees without the pruned labels; the family tree comes at transform time
+        case["trees2"] = trees
+        trees = [{"succ": t_["succ"], "labels": [l if l < K else rng.randrange(K) for l in t_["labels"]]} for t_ in trees[:1]] + [pad]
+    case["trees"] = trees
+    if mech == "max_occ":
+        flat = [l for t_ in trees for l in t_["labels"]]
+        cnt = {l: flat.count(l) for l in set(flat)}
+        keep_max = max([cnt[l] for l in cnt if l < K] + [0])
+        prune_min = min([cnt[l] for l in cnt if l >= K] + [10 ** 6])
+        if 0 < keep_max < prune_min < 10 ** 6:
+            prune["max_occ"] = keep_max
+        else:
+            prune["ignored"] = sorted(l for l in cnt if l >= K)
+            case["family"] = case["family"].replace("max_occ", "ignored")
+    case["prune"] = prune
+    case["mask"] = (rng.random() < 0.3) if mask is None else mask
+    case["nullify"] = bool(case["mask"] and prune.get("dict") is None and rng.random() < 0.4)
+    d = expected_dict(dict(case, mask=False))
+    want = set(kept_labels) & {l for t_ in trees for l in t_["labels"]}
+    if set(d) != want or not d:
+        # (cannot happen by construction; never emit a case whose pruning is not the intended one)
+        case["prune"] = {"ignored": sorted({l for t_ in trees for l in t_["labels"] if l >= K})}
+        if not expected_dict(dict(case, mask=False)):
+            case["prune"] = {}
+    if case["trees2"] is None and rng.random() < 0.4:
+        # a later transform of another member of the family, one label never seen by fit
+        s2, h2 = rng.choice(SHAPES), rng.choice(NUMBERINGS)
+        case["trees2"] = [structured_tree(rng, s2, h2, rng.choice(PATTERNS), K, pruned_labels[:2] + [K + 20], False, inward)[0]]
+    return case
+
+
+def structured_cases(rng, n):
+    """n cases: first the breadth-first complete trees with a whole level / sibling groups pruned by every mechanism
+    (no mask), then a stratified sweep of shape x numbering x pattern with random mechanism / mask / kernel settings"""
+    out = []
+    for shape in ("bin2", "tern2", "bin3"):
+        for pattern, mech in (("level", "ignored"), ("siblings", "min_occ"), ("level", "unseen"), ("siblings", "dict"),
+                              ("two-levels", "min_tree_occ"), ("alternate", "max_occ")):
+            out.append(gen_structured(rng, shape, "bfs", pattern, mech, mask=False))
+    combos = [(s_, h, p) for s_ in SHAPES for h in NUMBERINGS for p in PATTERNS]
+    rng.shuffle(combos)
+    i = 0
+    while len(out) < n:
+        s_, h, p = combos[i % len(combos)]
+        out.append(gen_structured(rng, s_, h, p))
+        i += 1
+    return out[:n]
+
+
 def T(succ, labels):
     return {"succ": succ, "labels": labels}
 
@@ -288,6 +510,9 @@ def close(got, exp, D, tol):
 def kind_of(case):
     p = case["prune"]
     pk = "dict" if p.get("dict") is not None else (next(iter(p)) if p else "none")
+    fam = case.get("family")
+    if fam:
+        return "family:%s%s%s" % (fam, "-in" if case.get("inward") else "", ":mask" + ("+null" if case["nullify"] else "") if case["mask"] else "")
     return "%s:%s:%s:%s%s" % (case["kind"] + ("-in" if case.get("inward") else ""), case["kernel"], case["orient"], pk,
                               ":mask" + ("+null" if case["nullify"] else "") if case["mask"] else "")
 
@@ -295,12 +520,23 @@ def kind_of(case):
 def run(ctx, replay=None):
     C.run_gate(ctx)
     n = 350 if ctx.quick else 5000
-    cases = [replay["case"]] if replay else CORPUS + [gen_case(ctx.rng) for _ in range(n)]
+    n_struct = 160 if ctx.quick else 1500
+    cases = [replay["case"]] if replay else CORPUS + structured_cases(ctx.rng, n_struct) + [gen_case(ctx.rng) for _ in range(n)]
     ctx.coverage["rule"] = ("random forests (1-4 trees of 1-8 nodes: paths, stars, random parents, isolated nodes, random node "
                             "numbering, parent->child or child->parent edges; 1-5 labels, single/two-label trees) x radius 1-5 x "
                             "flat/harmonic/geometric (+offset, normalize, power) x 4 orientations x pruning (ignored / min / max / "
                             "tree occurrences / given dictionary) x mask / nullify x sparse format, fit_transform and transform "
-                            "on a second forest with an unseen label; non-trivial = at least one non-zero entry")
+                            "on a second forest with an unseen label; in every run also structured families: complete binary "
+                            "(depth 2, 3) / ternary (depth 2) trees, stars, caterpillars x numbering breadth-first / pre-order / "
+                            "post-order / reverse breadth-first x pruned set = a whole level / two levels / all children of 1-2 "
+                            "parents / alternating nodes / all inner nodes / first / last children x pruning by ignored_tokens / "
+                            "min_occurrences / max_occurrences / min_tree_occurrences / given dictionary / labels unknown at "
+                            "transform x mask / no mask (removed nodes are contracted); non-trivial = at least one non-zero entry")
+    ctx.coverage["structured_families"] = {}
+    for c in cases:
+        if c.get("family"):
+            k = "/".join(c["family"].split("/")[1:3]) + ("/mask" if c["mask"] else "/contract")
+            ctx.coverage["structured_families"][k] = ctx.coverage["structured_families"].get(k, 0) + 1
     ctx.assumptions += ["adjacency matrices are 0/1 scipy sparse matrices of forests (dense ndarrays are rejected by the code)",
                         "kernel weights are exact rationals scaled to integers for the Z model; float64 results compared at 1e-9 "
                         "(relative to max(1,|x|)); the float32 TokenCooccurrenceVectorizer at 2e-5",
